@@ -383,8 +383,10 @@ deriving Repr, DecidableEq
 
 def clampN (n len : Int) : Int := if n < 0 then 0 else if n > len then len else n
 
-/-- The `for nr < len(p)` loop of `(*file).ReadAt`; one scripted answer per iteration. -/
-def readLoop (lenP off : Int) : List Chunk → Int → List REv → List REv × Outcome Int
+/-- The `for nr < len(p)` loop of `(*file).ReadAt`; one scripted answer per iteration.
+`bound` is the largest buffer the process can allocate: `b.Grow(int(chunkSize))` beyond it
+panics ("bytes.Buffer: too large") or kills the process (out of memory). -/
+def readLoop (bound lenP off : Int) : List Chunk → Int → List REv → List REv × Outcome Int
   | [], nr, evs =>
     if nr ≥ lenP then (evs, ok nr) else (evs ++ [REv.chunkAt (wrap64 (off + nr))], ok nr)
   | c :: rest, nr, evs =>
@@ -403,23 +405,27 @@ def readLoop (lenP off : Int) : List Chunk → Int → List REv → List REv × 
     match hitRes with
     | Outcome.panic => (evs, Outcome.panic)
     | err => (evs, err)
-    | ok (some n) => readLoop lenP off rest (nr + n) evs
+    | ok (some n) => readLoop bound lenP off rest (nr + n) evs
     | ok none =>
       if lower = 0 ∧ upper = 0 then
         match slice? nr (nr + c.cs) lenP with
-        | ok _ => readLoop lenP off rest (nr + clampN c.n c.cs) (evs ++ [REv.storeRead c.cs c.co])
+        | ok _ => readLoop bound lenP off rest (nr + clampN c.n c.cs) (evs ++ [REv.storeRead c.cs c.co])
         | _ => (evs, Outcome.panic)
       else
         -- temporary buffer: b.Grow(chunkSize); ip := b.Bytes()[:chunkSize]; ip[lower : chunkSize-upper]
+        if c.cs > bound then (evs ++ [REv.grow c.cs], Outcome.panic) else
         match slice? 0 c.cs c.cs, slice? lower (c.cs - upper) c.cs, slice? nr lenP lenP with
         | ok _, ok _, ok _ =>
           let n := if lenP - nr < c.cs - upper - lower then lenP - nr else c.cs - upper - lower
           if n ≠ expected then (evs ++ [REv.grow c.cs, REv.storeRead c.cs c.co], err)
-          else readLoop lenP off rest (nr + n) (evs ++ [REv.grow c.cs, REv.storeRead c.cs c.co])
+          else readLoop bound lenP off rest (nr + n) (evs ++ [REv.grow c.cs, REv.storeRead c.cs c.co])
         | _, _, _ => (evs ++ [REv.grow c.cs], Outcome.panic)
 
-def fileReadAt (lenP off : Int) (script : List Chunk) : List REv × Outcome Int :=
-  readLoop lenP off script 0 []
+def fileReadAt (bound lenP off : Int) (script : List Chunk) : List REv × Outcome Int :=
+  readLoop bound lenP off script 0 []
+
+/-- The allocation bound the driver assumes (1 TiB). -/
+def allocBound : Int := 1099511627776
 
 /-! ## FUSE passthrough: `GetPassthroughFd` and the batch merge -/
 
